@@ -67,12 +67,13 @@ VARIABLES reg, cfg,          \* the store: registry entries, config documents
           nops, nloads, ncrash,
           abs, written, committed,            \* ghosts: committed configuration per db; complete configs ever written; pays committed
           chg, wr, solo, cleanStart,          \* ghosts per node used by RejectedIsNoop / Recoverable
+          staleBy,                            \* ghost: databases whose update died after its config write, before finalizing
           tainted, devs,                      \* ghosts: databases hit by an accepted deviation (their NoLostAck is waived); names of the deviations accepted so far
           okLoad, okOwnLoad, okRej, okRec, okAck,  \* verdicts of the checks made at operation return
           hist
 impl  == <<reg, cfg, loc>>
 env   == <<nops, nloads, ncrash>>
-ghost == <<abs, written, committed, chg, wr, solo, cleanStart, tainted, devs, okLoad, okOwnLoad, okRej, okRec, okAck>>
+ghost == <<abs, written, committed, chg, wr, solo, cleanStart, staleBy, tainted, devs, okLoad, okOwnLoad, okRej, okRec, okAck>>
 vars  == <<impl, env, ghost, hist>>
 view  == <<impl, env, ghost>>
 
@@ -256,7 +257,7 @@ Init ==
   /\ nops = 0 /\ nloads = 0 /\ ncrash = 0
   /\ abs = EmptyCfgs /\ written = {} /\ committed = {}
   /\ chg = [n \in Nodes |-> FALSE] /\ wr = [n \in Nodes |-> FALSE] /\ solo = [n \in Nodes |-> FALSE]
-  /\ cleanStart = [n \in Nodes |-> FALSE] /\ tainted = {} /\ devs = {}
+  /\ cleanStart = [n \in Nodes |-> FALSE] /\ staleBy = {} /\ tainted = {} /\ devs = {}
   /\ okLoad = TRUE /\ okOwnLoad = TRUE /\ okRej = TRUE /\ okRec = TRUE /\ okAck = TRUE
   /\ hist = <<>>
 
@@ -287,11 +288,13 @@ RecoverableStrict(res, o, vis, r) ==   \* a follow-up run alone ends in success 
        /\ (OtherConflict(r, o.db, o.colls) \/ \E d \in DBs \ {o.db} : vis[d].colls \cap o.colls # {})
 (* named deviation StalePreviousVersion: a previous-version marker left by an update that died after its config
    write but before its finalize step is never removed by anybody; requests for the released collections are
-   rejected as "update in progress" although no database owns them *)
-StalePrevAt(res, o, vis, r) ==
+   rejected as "update in progress" although no database owns them.  Recognised from the recorded history only: the
+   marker in the way belongs to a database whose UpdateConfig was seen to die after its commit (stale). *)
+StalePrevAt(res, o, vis, r, stale) ==
   /\ ~RecoverableStrict(res, o, vis, r)
-  /\ AllowStalePrev /\ res = "conflict_inprogress" /\ o.t \in {"I", "U"} /\ PrevConflicts(r, o.db, o.colls) # {}
-RecoverableAt(res, o, vis, r) == RecoverableStrict(res, o, vis, r) \/ StalePrevAt(res, o, vis, r)
+  /\ AllowStalePrev /\ res = "conflict_inprogress" /\ o.t \in {"I", "U"}
+  /\ PrevConflicts(r, o.db, o.colls) # {} /\ PrevConflicts(r, o.db, o.colls) \subseteq stale
+RecoverableAt(res, o, vis, r, stale) == RecoverableStrict(res, o, vis, r) \/ StalePrevAt(res, o, vis, r, stale)
 
 (* ---- ghost part of a storage step (kind = "Ret": the logged return of a call, in the trace specification);
    o = the operation node n is running; out = what a load returned ---- *)
@@ -300,15 +303,19 @@ GhostStep(n, o, kind, d, ok, val, res, out) ==
       vis2 == Visible(reg', cfg')
       commitW == kind \in {"Ic", "Wc"} /\ ok
       commitD == kind = "Wr" /\ ok /\ o.t = "D" /\ o.db \in DBs /\ IsDeleted(reg'[o.db]) /\ ~IsDeleted(reg[o.db])
-      (* deviations - steps that are nobody's commit and yet destroy a committed configuration:
-         OrphanDeleteDestroysLive: waitForConfigDelete, working from a registry read BEFORE another node's insert, takes
-           that node's freshly committed (visible) config for an orphan and deletes it.
+      (* deviations - steps that are nobody's commit and yet destroy a committed configuration; each is recognised from
+         recorded facts of the schedule (who read what before whom), never from the damage alone:
+         OrphanDeleteDestroysLive: waitForConfigDelete deletes, as an orphan, the visible config of a database that the
+           node's own registry read does NOT list while the registry now does - the read was overtaken by another node's
+           insert (registry write + config write), and the config is deleted without looking at the registry again.
          DeleteFinalizeRemovesRecreated: the finalize step of DeleteConfig removes whatever entry the registry now has
-           for the database - also one that another node has (re)created since the delete marker was written.
+           for the database - here a live entry that somebody wrote over this delete's own marker.
          Where accepted, the database is marked tainted and NoLostAck / RejectedIsNoop no longer speak about it. *)
-      devD2 == AllowOrphanDeleteLive /\ kind = "Dc" /\ ok /\ d \in DBs /\ vis[d] # NoCfg
-      devD3 == AllowDeleteFinalizeLive /\ kind = "Wr" /\ ok /\ o.t = "D" /\ o.db \in DBs
-               /\ Present(reg[o.db]) /\ ~IsDeleted(reg[o.db]) /\ ~Present(reg'[o.db])
+      devD2 == /\ AllowOrphanDeleteLive /\ kind = "Dc" /\ ok /\ d \in DBs /\ vis[d] # NoCfg
+               /\ ~Present(loc[n].rl[d]) /\ Present(reg[d])
+      devD3 == /\ AllowDeleteFinalizeLive /\ kind = "Wr" /\ ok /\ o.t = "D" /\ o.db \in DBs
+               /\ o.pay \in committed                \* this delete has written its marker ...
+               /\ Present(reg[o.db]) /\ ~IsDeleted(reg[o.db]) /\ ~Present(reg'[o.db])     \* ... and now removes a live entry
       tnt2 == tainted \cup (IF devD2 THEN {d} ELSE {}) \cup (IF devD3 THEN {o.db} ELSE {})
       chg2 == chg[n] \/ \E x \in DBs \ tnt2 : vis2[x] # vis[x]
       wr2  == wr[n] \/ reg' # reg \/ cfg' # cfg
@@ -320,7 +327,8 @@ GhostStep(n, o, kind, d, ok, val, res, out) ==
   /\ tainted' = tnt2
   /\ devs' = devs \cup (IF devD2 THEN {"OrphanDeleteDestroysLive"} ELSE {})
                   \cup (IF devD3 THEN {"DeleteFinalizeRemovesRecreated"} ELSE {})
-                  \cup (IF res # "" /\ solo[n] /\ StalePrevAt(res, o, vis2, reg') THEN {"StalePreviousVersion"} ELSE {})
+                  \cup (IF res # "" /\ solo[n] /\ StalePrevAt(res, o, vis2, reg', staleBy) THEN {"StalePreviousVersion"} ELSE {})
+  /\ staleBy' = IF commitW \/ commitD THEN staleBy \ {IF commitW THEN d ELSE o.db} ELSE staleBy
   /\ written' = wrt2 /\ committed' = com2
   /\ chg' = [chg EXCEPT ![n] = chg2] /\ wr' = [wr EXCEPT ![n] = wr2]
   /\ solo' = [m \in Nodes |-> solo[m] /\ m = n]
@@ -328,7 +336,7 @@ GhostStep(n, o, kind, d, ok, val, res, out) ==
   /\ IF res = "" THEN UNCHANGED <<okLoad, okOwnLoad, okRej, okRec, okAck>>
      ELSE /\ okRej' = (okRej /\ (res \in Rejections => ~chg2 /\ (solo[n] /\ cleanStart[n] => ~wr2)))
           /\ okAck' = (okAck /\ (res = "ok" /\ o.t # "L" => o.pay \in com2))
-          /\ okRec' = (okRec /\ (solo[n] => RecoverableAt(res, o, vis2, reg')))
+          /\ okRec' = (okRec /\ (solo[n] => RecoverableAt(res, o, vis2, reg', staleBy)))
           /\ okLoad' = (okLoad /\ (o.t = "L" /\ res = "ok" => LoadAtomicAt(out.cfgs, out.reg, wrt2)))
           /\ okOwnLoad' = (okOwnLoad /\ (o.t = "L" /\ res = "ok" => LoadExclusiveAt(out.cfgs)))
 
@@ -336,10 +344,11 @@ GhostStart(n) ==
   /\ chg' = [chg EXCEPT ![n] = FALSE] /\ wr' = [wr EXCEPT ![n] = FALSE]
   /\ solo' = [m \in Nodes |-> m = n /\ AllIdle]
   /\ cleanStart' = [cleanStart EXCEPT ![n] = Clean(reg, cfg)]
-  /\ UNCHANGED <<abs, written, committed, tainted, devs, okLoad, okOwnLoad, okRej, okRec, okAck>>
+  /\ UNCHANGED <<abs, written, committed, staleBy, tainted, devs, okLoad, okOwnLoad, okRej, okRec, okAck>>
 
-GhostCrash(n) ==
+GhostCrash(n) ==      \* o = the call that dies
   /\ solo' = [solo EXCEPT ![n] = FALSE]
+  /\ staleBy' = IF loc[n].op.t = "U" /\ loc[n].op.pay \in committed THEN staleBy \cup {loc[n].op.db} ELSE staleBy
   /\ UNCHANGED <<abs, written, committed, chg, wr, cleanStart, tainted, devs, okLoad, okOwnLoad, okRej, okRec, okAck>>
 
 Step(n, a, o, res) == hist' = Append(hist, [n |-> n, a |-> a, o |-> o, res |-> res])
